@@ -166,6 +166,13 @@ class IntArg(Arg):
         lo = self.lo if self.lo is not None else -10 ** 12
         hi = self.hi if self.hi is not None else 10 ** 12
         edges = [lo, hi, min(max(0, lo), hi), min(max(1, lo), hi), min(max(-1, lo), hi)]
+        # every power of ten in range, with its neighbours, both signs: where digit counts change
+        for k in range(0, 19):
+            for sgn in (1, -1):
+                for d in (-1, 0, 1):
+                    v = sgn * (10 ** k + d)
+                    if lo <= v <= hi and v not in edges:
+                        edges.append(v)
         return edges + [rng.randint(lo, hi) for _ in range(max(0, n - len(edges)))]
 
 
@@ -253,7 +260,8 @@ class TextArg(Arg):
 
     def samples(self, rng, n):
         if self.sampler:
-            out = [self.sampler(rng) for _ in range(n * 2)]
+            # the sampler's whole pool of awkward values first (the sweep uses every one of them), then random draws
+            out = list(getattr(self.sampler, "pool", [])) + [self.sampler(rng) for _ in range(n * 2)]
             if self.nonempty:
                 out = [x for x in out if x != ""] or ["x"]
             return out
@@ -440,6 +448,8 @@ def native_check(contract, fn, concrete_args, frames_only=False):
         for kid, kexpr in contract.kf:
             if native_eval(kexpr, env):
                 return "kf", kid
+    except (NameError, SyntaxError) as e:
+        raise RuntimeError(f"contract clause cannot be evaluated: {e!r}")       # a broken contract, not a false precondition
     except Exception as e:
         return "pre-false", f"requires raised {e!r}"
     import copy, warnings
@@ -920,10 +930,22 @@ class Verifier:
         bad = []
         evals = 0
         kf_hits = 0
-        for i in range(n):
-            args = [rng.choice(p) for p in per]
-            if contract.gen is not None and (i % 4 != 3 or any(x is None for x in args)):
-                args = contract.gen(rng)
+        # every sample value of every argument is used at least once (edges are listed first by the samplers), then
+        # random combinations
+        sweep = []
+        if contract.gen is None:
+            for ai, pool in enumerate(per):
+                for val in pool[:64]:
+                    combo = [rng.choice(p) for p in per]
+                    combo[ai] = val
+                    sweep.append(combo)
+        for i in range(n + len(sweep)):
+            if i < len(sweep):
+                args = sweep[i]
+            else:
+                args = [rng.choice(p) for p in per]
+                if contract.gen is not None and (i % 4 != 3 or any(x is None for x in args)):
+                    args = contract.gen(rng)
             v, d = native_check(contract, fn, args)
             if v == "pre-false":
                 continue
